@@ -59,7 +59,7 @@ def impl_views(k):
     return list(d.keys()), [float(v) for v in d.values()], [float(v) for v in sc.relative_frequency_by_int]
 
 
-def run(ctx, res):
+def custom_run(ctx, res):
     rng = ctx.rng
     drv = ctx.driver
     kmax_exh = ctx.n(7, 11)
@@ -136,6 +136,7 @@ def run(ctx, res):
         res.oracle_case("views_enumerate", ok, {"k": k}, "by_str view is not each outcome once in integer order")
     # histogram / relative frequencies through the real OutputParser, strings and ints interpreted identically
     G = gates.GATES
+    hist_reqs = []
     for t in range(ctx.n(60, 600)):
         k = rng.randint(1, 5)
         nsub = rng.randint(1, 3)
@@ -167,11 +168,13 @@ def run(ctx, res):
         res.oracle_case("outputs_str_int_hist", ok, case, why)
         if drv and t < ctx.n(40, 300):
             own0 = [ints[j] for j in range(total) if j % nsub == 0]
-            o = drv.batch([{"op": "histogram", "len": 2**k, "outs": own0}])[0]
             impl = [str(int(v)) for v in r_int.subcircuits[0].relative_frequency_by_int]
-            res.case("histogram", {"len": 2**k, "outs": own0})
+            hist_reqs.append(({"op": "histogram", "len": 2**k, "outs": own0}, impl))
+    if drv and hist_reqs:
+        for (rq, impl), o in zip(hist_reqs, drv.batch([r for r, _ in hist_reqs])):
+            res.case("histogram", {"len": rq["len"], "outs": rq["outs"]})
             if o != ("out", impl):
-                res.disagree("histogram", {"len": 2**k, "outs": own0}, o, impl)
+                res.disagree("histogram", {"len": rq["len"], "outs": rq["outs"]}, o, impl)
     # probabilities: non-negative, sum to one (tolerance: float rounding is outside the model)
     for t in range(ctx.n(100, 1500)):
         k = rng.randint(1, 6)
@@ -204,6 +207,7 @@ def _normalize_corr(ctx, res):
     from fractions import Fraction
 
     rng = ctx.rng.sub("normalize")
+    pending = []
     for t in range(ctx.n(300, 3000)):
         k = rng.randint(1, 4)
         d = 2**k
@@ -212,7 +216,6 @@ def _normalize_corr(ctx, res):
         if sum(w) == 0:
             w[0] = 1
         tot = sum(w)
-        # make total a power of two so p is dyadic and sums exactly to 1
         while tot & (tot - 1):
             w[rng.randrange(d)] += 1
             tot += 1
@@ -233,7 +236,9 @@ def _normalize_corr(ctx, res):
                 impl = ("ok", [float(v) for v in sc.probability_by_int], any(issubclass(x.category, RuntimeWarning) and "Error in probabilities" in str(x.message) for x in wl))
             except RuntimeError:
                 impl = ("err",)
-        o = drv.batch([{"op": "normalize", "p": [[str(x.numerator), str(x.denominator)] for x in p]}])[0]
+        pending.append((kind, p, impl))
+    outs = drv.batch([{"op": "normalize", "p": [[str(x.numerator), str(x.denominator)] for x in p]} for _, p, _ in pending])
+    for (kind, p, impl), o in zip(pending, outs):
         case = {"p": [str(x) for x in p]}
         res.count(f"normalize {kind} -> {impl[0]}")
         res.case("normalize", case)
@@ -256,7 +261,7 @@ def _normalize_corr(ctx, res):
         res.oracle_case("probabilities_normalised", ok, case, "accepted probabilities not normalised")
 
 
-def replay(ctx, res, payload):
+def custom_replay(ctx, res, payload):
     case = payload.get("case") or {}
     print("replay", payload.get("oracle"), case)
     if "k" in case and "n" in case:
@@ -264,3 +269,26 @@ def replay(ctx, res, payload):
         if ctx.driver:
             print("model:", ctx.driver.batch([{"op": "as_str", "k": case["k"], "n": case["n"]}]))
     return 0
+
+
+from ._generic import make, STD_TRUST  # noqa: E402
+
+_g = make(
+    pid="C15",
+    props=PROPS_FILES,
+    targets=LAKE_TARGETS,
+    diffs=[("harness.agents.res_diff", 600, 4000)],
+    trusted=[STD_TRUST] + TRUSTED[1:],
+    assumptions=ASSUMPTIONS,
+    extra_run=custom_run,
+)
+run = _g["run"]
+search = _g["search"]
+TRUSTED = _g["TRUSTED"]
+
+
+def replay(ctx, res, payload):
+    case = payload.get("case") or {}
+    if isinstance(case, dict) and "k" in case and "n" in case and "kind" not in case:
+        return custom_replay(ctx, res, payload)
+    return _g["replay"](ctx, res, payload)
